@@ -58,7 +58,21 @@ def _tree(depth, t):
     return {"name": "tree", "nodes": nodes, "bbtypes": [], "insts": []}
 
 
+def _delay_line(n):
+    nodes = [["a", "input", [], False], ["b", "input", [], False]]
+    prev = "a"
+    for i in range(n):
+        nodes.append([f"d{i}", "buf" if i % 3 else "not", [prev], False])
+        prev = f"d{i}"
+    nodes.append(["o", "and", [prev, "b"], False])
+    nodes.append(["p", "xor", ["o", "a"], True])
+    return {"name": "dl", "nodes": nodes, "bbtypes": [], "insts": []}
+
+
 def core(ctx):
+    for n in (40, 1500):
+        yield {"spec": _delay_line(n), "superc": False}
+        yield {"spec": _delay_line(n), "superc": True}
     yield {"spec": _example(), "superc": True}
     yield {"spec": _example(), "superc": False}
     for d in (1, 2, 3):
